@@ -176,6 +176,9 @@ def ob_negative(kind):
     n = 0
     for path, (E, D) in W.I.explore(once, 64):
         n += 1
+        r, _ = W.solve(path.pc, hyp, "hypotheses are satisfiable")
+        if r != z3.sat:
+            raise Inconclusive("the hypotheses of the negative statement are not satisfiable (vacuous)")
         f = W.same_formula(E, D)
         if f is None:
             continue
